@@ -902,6 +902,12 @@ def replay(cex):
     return False, 'unknown kind'
 
 
+QUICK_COMBOS = [('scalar', 'scalar', False), ('full', None, False),
+                ('src', 'rec', False), (None, 'full', False),
+                ('freq', 'scalar', False), ('scalar', None, True),
+                ('full', 'full', True), (None, None, False)]
+
+
 def _dispatch(job):
     return globals()[job[0]](job[1])
 
@@ -920,10 +926,7 @@ def main(tier):
     kinds = [None, 'scalar', 'full', 'src', 'rec', 'freq']
     if tier == 'quick':
         shapes = [(2, 2, 1)]
-        combos = [('scalar', 'scalar', False), ('full', None, False),
-                  ('src', 'rec', False), (None, 'full', False),
-                  ('freq', 'scalar', False), ('scalar', None, True),
-                  ('full', 'full', True), (None, None, False)]
+        combos = list(QUICK_COMBOS)
     else:
         shapes = [(1, 1, 1), (2, 2, 1), (2, 1, 2)]
         combos = [(a, b, s) for a in kinds for b in kinds
@@ -936,7 +939,12 @@ def main(tier):
             if nf is None and re is None and not std:
                 continue
             jobs.append(('case_copy_select', (shp, nf, re, std)))
-            jobs.append(('case_misfit', (shp, nf, re, std, False)))
+            # the misfit identity is a nonlinear (NRA) query whose cost
+            # grows with the number of data: all parameter forms on the two
+            # smaller shapes, the quick tier's forms on the two-frequency one
+            if tier == 'quick' or shp != (2, 1, 2) or \
+                    (nf, re, std) in QUICK_COMBOS:
+                jobs.append(('case_misfit', (shp, nf, re, std, False)))
             for op in OPS:
                 if tier == 'quick' and op in ('add_noise_gauss_new',
                                               'add_noise_corr_offsets') and \
